@@ -92,6 +92,7 @@ def run(ctx):
     formats_through_fmt(ctx, core)
     inlined_vector(ctx, ctx.facts("effects.cpp", "A", ()))
     c_string_terminators(ctx, ctx.facts("effects.cpp", "A", ()))
+    stores_one_argument(ctx, ctx.facts("effects.cpp", "A", ()))
     # a statement with run-time source metadata keeps exactly its message text (= C12.R9: cut at the separators measured on the text
     # as formatted, shortened before it is sanitised)
     from rules import c12
@@ -153,6 +154,7 @@ def triplets(ctx, facts, unit):
         raise AnalysisBroken("codec function(s) of a shape the layout folder does not cover: " + "; ".join(broken[:5]))
     n = 0
     headers = set()
+    enc_locs = []
     for cls, d in sorted(fns.items()):
         k = key_of(cls)
         if set(d) != {"size", "encode", "decode"}:
@@ -160,6 +162,7 @@ def triplets(ctx, facts, unit):
         n += 1
         f = d["encode"]
         headers.add(f.loc.split(":")[0])
+        enc_locs.append((f.loc.split(":")[0], int(f.loc.split(":")[1])))
         try:
             flat = {}
             for kind in ("size", "encode", "decode"):
@@ -194,6 +197,19 @@ def triplets(ctx, facts, unit):
             if not covered:
                 raise AnalysisBroken("codec header std/%s contributes no compared triplet: the witness type matrix does not cover it" % h)
             ctx.ob("C04.R1h", "std/%s:covered" % h, True, "the header's codec is part of the compared type matrix")
+            # ... every Codec specialisation the header defines, not only one of them (Array.h defines two: T[N] and std::array<T, N>)
+            lines = open(os.path.join(std_dir, h)).read().split("\n")
+            specs = [i + 1 for i, l in enumerate(lines) if l.startswith("struct Codec<")]
+            used = set()
+            for (fl, ln) in enc_locs:
+                if fl == "std/" + h:
+                    before = [s_ for s_ in specs if s_ <= ln]
+                    if before:
+                        used.add(max(before))
+            missing = [s_ for s_ in specs if s_ not in used]
+            if missing and not (h == "Chrono.h"):
+                raise AnalysisBroken("std/%s: the Codec specialisation(s) defined at line(s) %s contribute no compared triplet: the witness "
+                                     "type matrix does not instantiate them" % (h, missing))
 
 
 def collect_pushes(items, layouts, own, pushes_by_key):
@@ -1173,3 +1189,25 @@ def c_string_terminators(ctx, facts):
             ctx.ob("C04.R12", "%s:unterminated-array-gets-terminator" % f.name.split("::encode")[0][:60], ok,
                    "on the 'no terminator within the %d elements' outcome the encoder writes one at buffer[%d] before the cursor advances" % (N, N), fn=f)
     ctx.floor("C04.R12", "C-string / char-array encoders", n, 2)
+
+
+def stores_one_argument(ctx, facts):
+    """R13: every decode_and_store_arg hands exactly one argument to the store on every path — the format string has one placeholder per
+    logged argument, so an argument that is decoded but not stored shifts every later one ('argument not found'), and one stored twice
+    shifts them the other way. (Codecs whose decode_and_store_arg formats the value itself — the deferred-format codec pushes the bound
+    formatter — are covered through their own push_back.)"""
+    n, bad = 0, []
+    for f in facts.fns:
+        if f.config != "A" or f.base != "decode_and_store_arg" or not (f.name.startswith("quill::Codec<") or "Codec<" in f.name):
+            continue
+        g = f.g
+        pushes = npos(f, f.calls(r"DynamicFormatArgStore::push_back<"))
+        nested = npos(f, [c for c in f.calls(r"Codec<.*>::decode_and_store_arg$") if c.get("callee") != f.name])
+        n += 1
+        cnt = g.count_on_paths([g.entry_node], [g.exit_node], pushes + nested)
+        if cnt[g.exit_node] != (1, 1):
+            bad.append("%s %s" % (f.name.replace("quill::", "")[:70], cnt[g.exit_node]))
+    ctx.floor("C04.R13", "decode_and_store_arg instantiations", n, 30)
+    ctx.ob("C04.R13", "decode_and_store_arg:stores-exactly-one-argument", not bad,
+           "each of the %d instantiations calls DynamicFormatArgStore::push_back (or hands on to one nested decode_and_store_arg) exactly "
+           "once on every path (others: %s)" % (n, "; ".join(bad[:5]) or "none"))
